@@ -4,6 +4,7 @@ import (
 	"fmt"
 	"os"
 	"path/filepath"
+	"runtime"
 	"sort"
 	"strings"
 	"sync"
@@ -247,6 +248,9 @@ type Run struct {
 	startModel *Model
 	uidPrefix  string
 	inheritSegVer int
+	plan        *FaultPlan
+	faultReplay *faultCase
+	osHook      *OSHook
 	docs       map[string]*DocSpec
 	recovered  map[int]*Content // image index -> recovered content (crash oracle)
 }
@@ -417,6 +421,21 @@ func (r *Run) exec(c *client, op *Op) {
 		r.s.Rec("invoke", "open", nil)
 		w, err := bluge.OpenWriter(r.cfg)
 		r.s.Rec("return", "open "+errStr(err), nil)
+		firedBefore := 0
+		for attempt := 0; err != nil && r.p.Faults && attempt < 64; attempt++ {
+			// an injected fault while opening must surface as an error of
+			// OpenWriter; once the faults stopped, opening must work. Retry
+			// only while the failed attempt coincided with a newly fired fault.
+			now := r.plan.firedTotal()
+			if now == firedBefore {
+				break // failed although no fault fired during that attempt
+			}
+			firedBefore = now
+			r.probe("open-failed-under-fault")
+			r.s.Rec("invoke", "open (retry)", nil)
+			w, err = bluge.OpenWriter(r.cfg)
+			r.s.Rec("return", "open "+errStr(err), nil)
+		}
 		if err != nil {
 			r.fail("open", "OpenWriter failed on a fresh/clean directory: "+err.Error())
 			return
@@ -893,6 +912,8 @@ func (r *Run) afterWindow() {
 				r.ackErr[d.n] = d.err.Error()
 				if !r.p.Faults {
 					r.fail("batch-error", fmt.Sprintf("B%d returned an error without any injected fault: %v", d.n, d.err))
+				} else {
+					r.stats.Probes["batch-returned-persist-error"]++
 				}
 			}
 			if r.p.History {
@@ -1094,6 +1115,13 @@ func (r *Run) Execute() {
 	r.trace = NewDirTrace(r.s, path)
 	r.trace.MidGateAfter = r.k.MidGate
 	r.trace.ReadBack = r.p.Images && path != ""
+	r.trace.plan = r.plan
+	if path != "" && (r.p.Faults || r.p.DirInv) {
+		r.osHook = NewOSHook(r.root)
+		r.osHook.record = false
+		r.trace.OS = r.osHook
+		r.osHook.Install()
+	}
 	r.cfg = r.buildConfig()
 	if r.startModel != nil {
 		r.chain = NewChain(r.startModel)
@@ -1199,7 +1227,7 @@ func (r *Run) quiescentChecks() {
 	if r.failed() {
 		return
 	}
-	if r.k.Dir == "fs" && !r.p.Faults {
+	if r.k.Dir == "fs" {
 		r.reopenCheck()
 	}
 }
@@ -1299,6 +1327,22 @@ func (r *Run) teardown() {
 	}
 	if !hung {
 		r.s.Quiesce()
+		// OpenWriter starts its analysis workers before Setup/Lock; when one
+		// of those fails the workers are never told to stop (goroutine leak,
+		// noted in DESIGN.md). Reap them so that the bubble can end.
+		q := r.cfg.VerifIndexConfig().AnalysisChan
+		for i := 0; i < 64; i++ {
+			select {
+			case q <- func() { runtime.Goexit() }:
+				continue
+			default:
+			}
+			break
+		}
+		r.s.Quiesce()
+	}
+	if r.osHook != nil {
+		r.osHook.Uninstall()
 	}
 	r.stats.SimMillis = int64(r.s.simNanos / time.Millisecond)
 	r.stats.ChainSteps = r.chain.steps
